@@ -65,11 +65,14 @@ def run(acc, eng, seqs, k):
     import pyrepseq
     if eng == "symdel2":
         return acc.call(pyrepseq.symdel, list(seqs), k, custom_distance="hamming", seqs2=list(seqs))
+    if eng == "symdel2-same-object":
+        x = list(seqs)
+        return acc.call(pyrepseq.symdel, x, k, custom_distance="hamming", seqs2=x)
     return run_self(acc, eng, list(seqs), k, custom_distance="hamming")
 
 
 def compare(acc, case, eng, seqs, k, res, expected, small):
-    self_mode = eng != "symdel2"
+    self_mode = not eng.startswith("symdel2")
     exp = expected if self_mode else expected | {(i, i, 0) for i in range(len(seqs))} | set()
     if not self_mode:
         exp = neighbors_within(list(seqs), k, queries=list(seqs), dist="hamming")
@@ -113,7 +116,7 @@ def check_case(case, acc):
             acc.cls("indel-reachable-not-hamming")
         for k in (1, 2, 3):
             expected = neighbors_within(list(seqs), k, dist="hamming")
-            for eng in ("nearest_neighbor", "symdel", "symdel2", "kdtree"):
+            for eng in ("nearest_neighbor", "symdel", "symdel2", "symdel2-same-object", "kdtree"):
                 compare(acc, case, eng, seqs, k, run(acc, eng, seqs, k), expected, True)
     elif kind == "hlist":
         _, seqs, k = case
